@@ -20,7 +20,7 @@ echo "== suite (patched)" >>$LOG
 FAILS=$(grep -E "^--- FAIL|^FAIL" $OUT/suite.log | grep -v "TestConjureLibConfigResolveBlocklisted" | grep -v "^FAIL$" | grep -v "FAIL	github.com/refraction-networking/conjure/pkg/station/lib" | wc -l)
 echo "unexpected failures: $FAILS" >>$LOG
 # demo
-DEMO=$(ls $OUT/demo* | head -1)
+DEMO=$(ls $OUT/demo*.go 2>/dev/null | head -1)
 PKGDIR=$(grep -ohE "(pkg|cmd|internal)/[A-Za-z0-9_/.-]+" $DEMO | head -1)
 DEMODIR=${DEMODIR:-}
 if [ -z "$DEMODIR" ]; then DEMODIR=$(python3 - "$OUT" <<'PY'
